@@ -544,7 +544,8 @@ def tool_diff(ctx, scen, impl_cmd, model_cmd, normalize=None, oracle_lines=None,
 
 # ------------------------------------------------------------------ C09
 def scen_C09(ctx):
-    ctx.rule = ('L_size: the crate\'s own slot-size decision (layout-probe hook) vs the model for value lengths 0..N (quick N=2^18, '
+    ctx.rule = ('`long_keys`: keys of 3000 .. 200000 bytes, longer than a chunk of the key buffer (Auto: 4 KiB, otherwise 128 KiB), with short neighbours, same session / after an overwrite / new session; ' +
+                'L_size: the crate\'s own slot-size decision (layout-probe hook) vs the model for value lengths 0..N (quick N=2^18, '
                 'thorough N=2^24, exhaustive) and key lengths 0..K (quick 1500, thorough 65536) x 35^2 offset-width representatives, '
                 'each also checked by the direct oracle "real encoded length <= slot"; L_img: sentinel sweep storing each length between '
                 'two sentinel entries and overwriting it one byte shorter/longer; distinct = distinct lines / op files')
@@ -603,6 +604,21 @@ def scen_C09(ctx):
         lines += ['iter m0 keys', 'closeall', 'snap db']
         pair(ctx, 'keylen', i, lines, files_oracle=True, release=(not ctx.quick and i % 5 == 0))
     parallel(onek, list(enumerate([klens[i:i + 10] for i in range(0, len(klens), 10)])))
+
+    # LONG keys: longer than a buffer chunk of the key file (4 KiB under Auto, 128 KiB otherwise), so that the key bytes of one
+    # record are written across one or several chunk boundaries; with short neighbours before and after, read back in the same
+    # session, after an overwrite that moves the value, and in a new session
+    def longk(i):
+        kb = ['KA', 'KP1000', 'KS0', 'KA'][i % 4]
+        Ls = [[4090, 4096, 4097, 5000], [8191, 12289, 70000], [131064, 131072, 131080, 200000], [3000, 4095, 140000]][i % 4]
+        lines = ['db d0 db', 'map m0 d0 bytes m B2,VA,%s,HA' % kb, 'put m0 6161 01']
+        for L in Ls:
+            k = 'z%dx%d' % (L, L % 200)
+            lines += ['put m0 %s 01' % k, 'put m0 %s 02' % ('n%06d' % L).encode().hex(), 'get m0 %s' % k, 'put m0 %s z300x3' % k, 'get m0 %s' % k, 'get m0 6161',
+                      'get m0 %s' % ('n%06d' % L).encode().hex()]
+        lines += ['len m0', 'closeall', 'snap db', 'db d0 db', 'map m0 d0 bytes m default'] + ['get m0 z%dx%d' % (L, L % 200) for L in Ls] + ['len m0', 'closeall']
+        pair(ctx, 'long_keys', i, lines, files_oracle=True, op_timeout=120)
+    parallel(longk, range(ctx.scale(4, 12)))
     # "writing one entry never alters the bytes of another" also while records MOVE: chains of slot-exact key records with
     # occupied neighbours, relocated when an offset field grows past 16 KiB; a 2 MiB value (4-byte length field)
     parallel(lambda i: cascade_case(ctx, 'C09', i), range(ctx.scale(12, 60)))
